@@ -172,4 +172,23 @@ CHECKS = {
             "VMess defines the authenticated-length cipher of both directions as KDF(request key, 'auth_len') with the request IV and a counter from 0; that protocol-defined overlap is compared per direction only",
             "the VMess 16-bit chunk counter wrap and packet-id exhaustion at 2^64 are not reached"],
     },
+    "C06": {
+        "level": "exploration",
+        "parts": [{"gen": "C06", "quick": 640, "thorough": 6400}],
+        "rule": "one run = the real server of one cell (7 Shadowsocks ciphers, the 2022 AES ones also with two registered users, VMess x 2 with several registered ids, Trojan; tcp + udp) with a scripted target behind it and 80 (thorough 400) attacks, "
+                "each on a fresh connection in 1-3 segments: random bytes; reference-built handshakes under a random / one-bit-wrong / unregistered key, password or user id; right server key with an unregistered user key, wrong server key with a registered user key, "
+                "no identity header with the server key or a user key; another protocol's handshake; a valid handshake cut at a drawn byte; one bit flipped inside the credential proof; and the datagram versions of these. "
+                "Oracle per attack: the server host issues no connect and no datagram toward the target (simulated registry), a truncated valid handshake relays at most a prefix of its own payload; afterwards a legitimate reference client is served and its answer opens under its own key; "
+                "with two users, B presents A's datagram session id - every reply at A's socket must open under A's key. evaluations = attacks.",
+        "real": REAL_SYSTEM, "stub": STUB_SYSTEM + ["attacker and legitimate peer = reference implementation"], "assumptions": ASSUME_SYSTEM + ["tampering with a stream that was produced with the credential is C05's subject, not this property's"],
+    },
+    "C07": {
+        "level": "exploration",
+        "parts": [{"gen": "C07", "quick": 256, "thorough": 2560}],
+        "rule": "one run = real client + real server of one cell under a barrage, with the process-wide panic monitor as the oracle: (a) exhaustive short strings to the server's port and to the client's local port - the empty string, every 1-byte string and every 2-byte string whose first byte lies in this plan's block of 16 "
+                "(16 rounds x 16 cells cover all first bytes for every cell), 3- and 4-byte strings over a reduced alphabet, half of them followed by quiet, all by EOF; (b) random and structure-aware strings (56 bytes + CRLF for Trojan, lengths around the salt / header sizes) in 1-3 segments; "
+                "(c) valid handshakes closed at a drawn byte; (d) authenticated but malformed frames from the reference sender (2022: bad address type, truncated address, padding beyond the header, no padding length, empty header, domain length beyond the header, declared length beyond the frame, non-UTF-8 domain; legacy, VMess and Trojan analogues incl. bad command, short header, bad checksum); "
+                "(e) garbage to the local SOCKS5/HTTP port; (f) random, truncated-valid and authenticated-but-malformed datagrams to the server, malformed SOCKS5-UDP datagrams to the client. Afterwards a correct TCP flow and a correct local datagram must still be served and no main() may have returned. evaluations = inputs.",
+        "real": REAL_SYSTEM, "stub": STUB_SYSTEM + ["hostile peers = harness + reference implementation"], "assumptions": ASSUME_SYSTEM + ["every other check runs with the same panic monitor and reports a panic as a violation of its own property", "allocation failure aborts instead of unwinding and is out of scope", "release build with shipping semantics (overflow-checks and debug-assertions off)"],
+    },
 }
